@@ -17,11 +17,12 @@
 using namespace unifex;
 
 // (not in an anonymous namespace: async_pass declares a constraint-only function over the payload type)
+void pay_moved_hook(int id);   // the argument of call #id is being transferred (the rendezvous is in progress): a scheduling point
 struct Pay {
   int id = -1; int* moves = nullptr; int* copies = nullptr;
   Pay() = default;
   Pay(int i, int* m, int* c) : id(i), moves(m), copies(c) {}
-  Pay(Pay&& o) noexcept : id(o.id), moves(o.moves), copies(o.copies) { if (moves) (*moves)++; }
+  Pay(Pay&& o) noexcept : id(o.id), moves(o.moves), copies(o.copies) { if (moves) { (*moves)++; pay_moved_hook(id); } }
   Pay(const Pay& o) noexcept : id(o.id), moves(o.moves), copies(o.copies) { if (copies) (*copies)++; }
   Pay& operator=(Pay&& o) noexcept { id = o.id; moves = o.moves; copies = o.copies; if (moves) (*moves)++; return *this; }
   Pay& operator=(const Pay& o) noexcept { id = o.id; moves = o.moves; copies = o.copies; if (copies) (*copies)++; return *this; }
@@ -38,13 +39,18 @@ struct OpRec {
   int kind = 0;        // caller: 0 async_call, 1 try_call, 2 async_throw ; acceptor: 0 async_accept, 1 try_accept
   int stop_mode = 0;   // 0 none, 1 before start, 2 stopper thread
   int signals = 0; int chan = dk::NONE; long t_begin = -1, t_end = -1, t_done = -1, t_stop = -1; int ctx = -1;
-  bool try_ok = false;
+  bool try_ok = false; bool claimed = false;   // caller: its argument has started to move (an acceptor claimed the call)
   int got_id = -1;     // acceptor: id of the payload / error received
   int moves = 0, copies = 0;   // caller: how often the original argument was moved/copied from
   std::unique_ptr<inplace_stop_source> src;
 };
-struct World { std::vector<OpRec> ops; dk::DCtx ctx; bool use_ctx = false; bool caller_finished = false, acceptor_finished = false; };
+struct World { std::vector<OpRec> ops; dk::DCtx ctx; bool use_ctx = false; bool caller_finished = false, acceptor_finished = false; bool caller2_active = false; };
 World* g_w;
+}  // namespace
+void pay_moved_hook(int id) {
+  if (g_w && id >= 0 && (size_t)id < g_w->ops.size()) { g_w->ops[(size_t)id].claimed = true; detsched::step(); }
+}
+namespace {
 
 template <class Sched>
 struct CRecv {   // caller-side receiver
@@ -86,7 +92,8 @@ struct ARecv {   // acceptor-side receiver
   friend Sched tag_invoke(tag_t<get_scheduler>, const ARecv& r) noexcept { return r.sched; }
 };
 
-struct Script { bool use_ctx = false; std::vector<int> caller, acceptor; std::vector<OpRec> proto; std::vector<std::pair<int, int>> stops; };
+struct Script { bool use_ctx = false; std::vector<int> caller, acceptor; std::vector<OpRec> proto; std::vector<std::pair<int, int>> stops;
+  int caller2 = -1; };   // a further async_call issued by a second caller thread as soon as the first call of the caller thread has been claimed (the pass is idle again) but possibly before that call has completed
 
 Script decode(vk::Choice& c) {
   Script s;
@@ -103,6 +110,12 @@ Script decode(vk::Choice& c) {
     s.acceptor.push_back((int)s.proto.size()); s.proto.push_back(std::move(o));
   }
   for (size_t i = 0; i < s.proto.size(); ++i) if (s.proto[i].stop_mode == 2) s.stops.emplace_back((int)i, (int)c.upto(10));
+  // derived from the hash of the script (consumes no bytes, so recorded byte strings keep their schedules)
+  if (vk::ctx().argi("legacy", 0) == 0 && s.proto[(size_t)s.caller[0]].kind == 0 && c.h % 3 == 0) {
+    OpRec o; o.side = 0; o.kind = 0; o.stop_mode = 0;
+    s.caller2 = (int)s.proto.size(); s.proto.push_back(std::move(o));
+    c.mix(77);
+  }
   return s;
 }
 
@@ -110,6 +123,7 @@ std::string describe(const Script& s) {
   static const char* ck[] = {"async_call", "try_call", "async_throw"}; static const char* ak[] = {"async_accept", "try_accept"};
   std::string d = vk::sfmt("async_pass<Pay>, scheduler=%s: caller[", s.use_ctx ? "worker-context" : "inline");
   for (int i : s.caller) d += vk::sfmt("#%d:%s%s ", i, ck[s.proto[(size_t)i].kind], s.proto[(size_t)i].stop_mode == 1 ? "(pre-stopped)" : s.proto[(size_t)i].stop_mode == 2 ? "(stopper)" : "");
+  if (s.caller2 >= 0) d += vk::sfmt("] second-caller[#%d:async_call once #%d is claimed", s.caller2, s.caller[0]);
   d += "] acceptor[";
   for (int i : s.acceptor) d += vk::sfmt("#%d:%s%s ", i, ak[s.proto[(size_t)i].kind], s.proto[(size_t)i].stop_mode == 1 ? "(pre-stopped)" : s.proto[(size_t)i].stop_mode == 2 ? "(stopper)" : "");
   return d + "]";
@@ -133,9 +147,12 @@ void run_script(const Script& sc, bool check, bool& nontrivial, Sched sched, Wor
       return false;
     });
   };
+  bool caller2_finished = sc.caller2 < 0; bool callers_finished = false;
   std::thread caller([&] {
     for (int id : sc.caller) {
       OpRec& o = W.ops[(size_t)id];
+      // (two calls must never be parked at once: the second caller thread's call has to be over before this thread's second operation)
+      if (id != sc.caller[0]) dk::wait_for([&] { return caller2_finished; });
       detsched::step();
       Pay pay(id, &o.moves, &o.copies);
       o.t_begin = dk::tick();
@@ -161,7 +178,29 @@ void run_script(const Script& sc, bool check, bool& nontrivial, Sched sched, Wor
         box.reset();
       }
     }
-    W.caller_finished = true;
+    W.caller_finished = true; callers_finished = caller2_finished;
+  });
+  std::thread caller2;
+  if (sc.caller2 >= 0) caller2 = std::thread([&] {
+    OpRec& first = W.ops[(size_t)sc.caller[0]];
+    dk::wait_for([&] { return first.claimed || first.signals > 0 || W.caller_finished; });
+    // only while the caller thread's own next call cannot be outstanding at the same time: the first call is claimed and not yet completed
+    if (first.claimed && first.signals == 0 && !W.caller_finished) {
+      int id = sc.caller2; OpRec& o = W.ops[(size_t)id];
+      W.caller2_active = true;
+      Pay pay(id, &o.moves, &o.copies);
+      o.t_begin = dk::tick();
+      auto snd = pass.async_call(std::move(pay));
+      using Op = connect_result_t<decltype(snd), CRecv<Sched>>;
+      dk::OpBox<Op> box; box.emplace(std::move(snd), CRecv<Sched>{id, sched});
+      cx.tr("#%ld async_call #%d start() (second caller; call #%d is claimed but not completed)", o.t_begin, id, sc.caller[0]);
+      vk::ctx().label("second-call-parks-during-rendezvous");
+      start(*box.op); o.t_end = dk::tick();
+      wait_or_cancel(o, W.acceptor_finished);
+      box.reset();
+      W.caller2_active = false;
+    }
+    caller2_finished = true; callers_finished = W.caller_finished;
   });
   std::thread acceptor([&] {
     for (int id : sc.acceptor) {
@@ -183,7 +222,7 @@ void run_script(const Script& sc, bool check, bool& nontrivial, Sched sched, Wor
         dk::OpBox<Op> box; box.emplace(std::move(snd), ARecv<Sched>{id, sched});
         cx.tr("#%ld async_accept #%d start()", o.t_begin, id);
         start(*box.op); o.t_end = dk::tick();
-        wait_or_cancel(o, W.caller_finished);
+        wait_or_cancel(o, callers_finished);
         box.reset();
       }
     }
@@ -197,7 +236,7 @@ void run_script(const Script& sc, bool check, bool& nontrivial, Sched sched, Wor
       if (o.t_stop < 0) { o.t_stop = dk::tick(); cx.tr("#%ld stopper: request_stop on #%d", o.t_stop, p.first); o.src->request_stop(); }
     }
   });
-  caller.join(); acceptor.join();
+  caller.join(); acceptor.join(); if (caller2.joinable()) caller2.join();
   if (stopper.joinable()) stopper.join();
   if (sc.use_ctx) { W.ctx.request_stop(); worker.join(); }
   if (!pass.is_idle()) cx.fail(P, "pass_not_idle", "all operations completed but is_idle() is false");
